@@ -4,8 +4,9 @@ import Haiway.Model.Metrics
     /repo's current `context/metrics.py` on every run) and the model `Haiway.Metrics.record` / `ctxRecord` of C10.
 
     fields of a `ScopeMetrics`: 0 `_metrics` (dict type ↦ value), 1 `_completed` (the completion future).
-    Recorded values are **arbitrary Python values** (`emb : Nat → Val` universally quantified, truthiness included – the
-    code tests the stored value by truthiness, and the model says so: `C10.fold_falsy_replaces`). -/
+    Recorded values are **arbitrary Python values** (`emb : Nat → Val` universally quantified, truthiness included: the
+    repaired code tests presence, not truthiness – `C10.fold_ignores_truthiness` – so a `record` that looks at the truth
+    value of what is stored cannot satisfy the obligation). -/
 namespace Haiway.Bridge.Metrics
 open Haiway.MiniPy
 
@@ -54,9 +55,9 @@ theorem assocGet_dictOf (emb : Nat → Val) (s : Store) (t : Nat) :
 def putVal (kv : List (Val × Val)) (ty : Nat) (v : Val) : List (Val × Val) := assocSet kv (.cls ty) v
 
 /-- **`ScopeMetrics.record(metric, merge=…)`** refines `Metrics.record`: refused (`AssertionError`) once the scope
-completed; otherwise the value is stored under its type if nothing *truthy* is stored there, else the stored value is
-replaced by `merge(stored, new)` – called exactly once, with exactly those two – or left as it is when the merge function
-raises (the exception propagates as that object).  Nothing else in the dict changes. -/
+completed; otherwise the value is stored under its type if nothing is stored there, else the stored value – whatever its
+truth value – is replaced by `merge(stored, new)` – called exactly once, with exactly those two – or left as it is when the
+merge function raises (the exception propagates as that object).  Nothing else in the dict changes. -/
 def RecordRefines (p : Stmt) : Prop :=
   ∀ (emb : Nat → Val) (s : Store) (v : Nat) (mergeFn : Val) (w : W), w.merged = [] →
     (∀ e, w.mergeOut = .inr e → ∃ c n, e = .exc c n) →
@@ -68,12 +69,11 @@ def RecordRefines (p : Stmt) : Prop :=
     else match get s ty with
       | none => r.1 = .ret .none ∧ r.2.fld 0 = .dict (putVal (s.map fun p => (.cls p.1, emb p.2)) ty (emb v)) ∧ r.2.world.merged = []
       | some cur =>
-        if (emb cur).truthy then
-          r.2.world.merged = [(emb cur, emb v)] ∧
-          (match w.mergeOut with
-           | .inl nv => r.1 = .ret .none ∧ r.2.fld 0 = .dict (putVal (s.map fun p => (.cls p.1, emb p.2)) ty nv)
-           | .inr e => r.1 = .exc e ∧ r.2.fld 0 = dictOf emb s)
-        else r.1 = .ret .none ∧ r.2.fld 0 = .dict (putVal (s.map fun p => (.cls p.1, emb p.2)) ty (emb v)) ∧ r.2.world.merged = []
+        (∀ n, emb n ≠ .none) →       -- stored values are objects, never `None` (the code tests `is not None`)
+        r.2.world.merged = [(emb cur, emb v)] ∧
+        (match w.mergeOut with
+         | .inl nv => r.1 = .ret .none ∧ r.2.fld 0 = .dict (putVal (s.map fun p => (.cls p.1, emb p.2)) ty nv)
+         | .inr e => r.1 = .exc e ∧ r.2.fld 0 = dictOf emb s)
 
 /-- **`MetricsContext.record`** refines `Metrics.ctxRecord` ("recording never raises into user code"): outside any scope,
 or when the scope's `record` raises an `Exception` (a failing merge, the completed-scope assertion), the failure is logged
@@ -95,6 +95,6 @@ def CtxRecordRefines (p : Stmt) : Prop :=
 
 macro "metrics_eval" : tactic => `(tactic|
   (simp (config := { decide := true }) [runMethod, exec, exec.execH, eval, builtin, ext, dictOf, putVal, upd, Val.same,
-     excClass, assocGet_dictOf, *]))
+     Val.truthy, excClass, assocGet_dictOf, *]))
 
 end Haiway.Bridge.Metrics
